@@ -307,7 +307,13 @@ func (l *tcpTransportListener) Listen(ctx context.Context, addr net.Addr) error 
 }
 
 func (l *tcpTransportListener) serve(listener net.Listener) {
-	defer close(l.connChan)
+	defer func() {
+		close(l.connChan)
+		// Connections that were accepted but not handed over are not left open
+		for conn := range l.connChan {
+			_ = conn.Close()
+		}
+	}()
 
 	for {
 		conn, err := listener.Accept()
@@ -322,6 +328,7 @@ func (l *tcpTransportListener) serve(listener net.Listener) {
 		} else {
 			select {
 			case <-l.done:
+				_ = conn.Close()
 				return
 			case l.connChan <- conn:
 			}
